@@ -4,7 +4,8 @@ namespace GoBatcher.Driver
 open GoBatcher
 
 def sdkErrOf (code : String) : SdkErr :=
-  if code == "none" then .none else if code == "other" || code == "cancelled" then .other else .storage code
+  if code == "none" then .none else if code == "other" || code == "cancelled" then .other
+  else if code == "EmptyCode" then .storage "" else .storage code
 
 def evStr : LmEvent → String
   | .createdContainer => "created-container" | .verifiedContainer => "verified-container"
@@ -64,14 +65,16 @@ def checkLeaseMgr (inp obs : KV) : Option String × List (String × String) :=
       (diffFields exp got, viol)
   else if site == "loopback" then
     -- blobs are named after the partition index, never overwritten, leased for 15 s under the caller's id
-    let exp := [("perr", "0"), ("cerr", "0"), ("secs0", "15"), ("secs1", "0"),
-      ("ev", "created-container+created-blob:0+created-blob:1+verified-blob:2+failed:1"),
+    let exp := [("perr", "0"), ("cerr", "0"), ("secs0", "15"), ("secs1", "0"), ("secs2", "0"),
+      ("ev", "created-container+created-blob:0+created-blob:1+verified-blob:2+failed:1+error"),
       ("reqs", "container:/cont,upload:/cont/0:ifnonematch=*,upload:/cont/1:ifnonematch=*,upload:/cont/2:ifnonematch=*," ++
                "lease:/cont/0:dur=15:id=11111111-1111-1111-1111-111111111111:action=acquire," ++
-               "lease:/cont/1:dur=15:id=22222222-2222-2222-2222-222222222222:action=acquire")]
+               "lease:/cont/1:dur=15:id=22222222-2222-2222-2222-222222222222:action=acquire," ++
+               "lease:/cont/2:dur=15:id=33333333-3333-3333-3333-333333333333:action=acquire")]
     let got := exp.map fun (k, _) => (k, obs.get k)
     let d := diffFields exp got
-    (d, if d.isSome then [("C18", "wire-level-request-differs")] else [])
+    (d, (if d.isSome then [("C18", "wire-level-request-differs")] else []) ++
+        (if obs.get "secs1" != "0" || obs.get "secs2" != "0" then [("C18", "lease-reported-without-confirmation:loopback")] else []))
   else (some "fields=site unknown", [])
 
 end GoBatcher.Driver
